@@ -650,6 +650,16 @@ def c06(tier):
         t["id"] += "-oddstate"
         t["cls"] = "unusual-squeue-state"
         tasks.append(t)
+    # two groups that BOTH still have batches to hand over when a round starts with active batches and one free slot
+    for a in ((0, 1, 0, 1), (0, 0, 1, 1)):
+        for t in rep_tasks(["C06"], (0, 0), graphs=["indep4"], params=[("sz1-mx2", dict(size=1, max_nodes=2)), ("sz1-mx3", dict(size=1, max_nodes=3))], assign=a):
+            t["id"] += "-2groups-a" + "".join(map(str, a))
+            tasks.append(t)
+    for a in ((0, 1, 0, 1, 0), (0, 0, 0, 1, 1), (1, 0, 1, 0, 0)):
+        bb5 = [[] for _ in range(5)]
+        for mx in (2, 3):
+            sc = mk_scen(bb5, dict(size=1, max_nodes=mx), assign=a, finish_orders="default")
+            tasks.append(dict(id=f"c06-indep5-sz1-mx{mx}-2groups-a{''.join(map(str, a))}", scen=sc, oracles=["Obs", "C06"], budget=(0, 0), cls="two-groups+" + _cls(bb5, dict(size=1, max_nodes=mx), a)))
     # a user-run try-submit-jobs at any point, from the login host and another one (two rounds must never both count
     # themselves below the limit)
     tasks += user_round_tasks(["C06"], (0, 0), ["indep3"], params=[("sz1-mx1", dict(size=1, max_nodes=1)), ("sz1-mx2", dict(size=1, max_nodes=2))])
@@ -660,7 +670,7 @@ def c06(tier):
         t["id"] += "-squeue-or-lock-fault"
         t["scen"]["actors"] = [dict(name="rec", argv=["jade", "try-submit-jobs", "{out}"], host="login2", guard="idle_incomplete", repeat=3)]
         tasks.append(t)
-    bounds = f"a user-run try-submit-jobs at any point from two hosts (3 independent jobs, max-nodes 1/2); REP graphs x max-nodes {{1,2}} x processes {{1,2,unset/2 CPUs}} x batch sizes 1-3 at {b[0]} preemption(s); G(3) grid; local mode; failures + cancel flags (incl. a 7-job cancel fan-out in one queue, with up to 2 polls at which nothing finishes); two groups with different process limits; one failing status query (squeue down for a whole round) or one lock-acquisition timeout in a submitter round; resubmission with a groups file that changes the process limit; resubmission while the completing node's batch is still running; one squeue answer per execution showing an active batch as SUSPENDED"
+    bounds = f"a user-run try-submit-jobs at any point from two hosts (3 independent jobs, max-nodes 1/2); REP graphs x max-nodes {{1,2}} x processes {{1,2,unset/2 CPUs}} x batch sizes 1-3 at {b[0]} preemption(s); G(3) grid; local mode; failures + cancel flags (incl. a 7-job cancel fan-out in one queue, with up to 2 polls at which nothing finishes); two groups with different process limits; two groups that both have batches left when a round starts with one free slot (4-5 independent jobs, max-nodes 2/3); one failing status query (squeue down for a whole round) or one lock-acquisition timeout in a submitter round; resubmission with a groups file that changes the process limit; resubmission while the completing node's batch is still running; one squeue answer per execution showing an active batch as SUSPENDED"
     return explore_check("C06", tier, tasks, S_RULE, COMMON_ASSUMPTIONS, dict(bounds=bounds))
 
 
